@@ -28,13 +28,15 @@ var plainKinds = map[string]string{
 	"g2":  "acc := [0]\nfunc push(v) { acc.append(v)\n return len(acc) }\npush(1)\n[push(2), acc]",
 	"in":  "func h() { return mode * 2 }\n[h(), mode]",
 	"imp": "import strings\nstrings.to_upper(\"ab\")",
+	"gc":  "hits.append(1)\ntally[\"n\"] = len(tally) + 1\n[len(hits), len(tally)]",
 	"clo": "func mk() { c := mode\n return func() { c = c + 1\n return c } }\nk := mk()\nk()\n[k(), mode]",
 }
 
 type plainStep struct {
 	Kind  string `json:"kind"`
-	Fresh bool   `json:"fresh_compilation"` // false: the shared code object
-	Mode  int    `json:"mode,omitempty"`    // host-supplied global "mode" of this invocation
+	Fresh bool   `json:"fresh_compilation"`    // false: the shared code object
+	Mode  int    `json:"mode,omitempty"`       // host-supplied global "mode" of this invocation
+	Bare  bool   `json:"no_options,omitempty"` // RunCode without any option (the globals of the VM's creation stay in force)
 }
 
 func (s plainStep) String() string {
@@ -44,6 +46,9 @@ func (s plainStep) String() string {
 	}
 	if s.Fresh {
 		t += "'"
+	}
+	if s.Bare {
+		t += "~"
 	}
 	return t
 }
@@ -65,7 +70,7 @@ type plainWorld struct {
 }
 
 func newPlainWorld() (*plainWorld, string) {
-	w := &plainWorld{env: rt.NewEnv(map[string]any{"mode": 0, "strings": modstrings.Module()}), shared: map[string]*compiler.Code{}}
+	w := &plainWorld{env: rt.NewEnv(map[string]any{"mode": 0, "strings": modstrings.Module(), "hits": []any{}, "tally": map[string]any{}}), shared: map[string]*compiler.Code{}}
 	for _, k := range plainAlphabetKinds(true) {
 		c, o := w.env.Compile(plainSource(k))
 		if c == nil {
@@ -77,7 +82,7 @@ func newPlainWorld() (*plainWorld, string) {
 }
 
 func plainAlphabetKinds(all bool) []string {
-	ks := []string{"a", "g", "g2", "in", "imp", "clo", "deff", "err0", "err2", "panic"}
+	ks := []string{"a", "g", "g2", "gc", "in", "imp", "clo", "deff", "err0", "err2", "panic"}
 	if all {
 		ks = append(ks, "b", "overflow")
 	}
@@ -119,10 +124,16 @@ func (w *plainWorld) run(h []plainStep) (out []string) {
 			g[k] = v
 		}
 		g["mode"] = s.Mode
+		// Go containers given as globals are converted anew for every invocation: each run starts from the
+		// host's (empty) values
+		g["hits"] = []any{}
+		g["tally"] = map[string]any{}
 		var err error
 		if m == nil {
 			m = vm.New(code, vm.WithGlobals(g), vm.WithOS(w.env.OS))
 			err = m.RunCode(ctx, code, vm.WithGlobals(g))
+		} else if s.Bare {
+			err = m.RunCode(ctx, code)
 		} else {
 			err = m.RunCode(ctx, code, vm.WithGlobals(g))
 		}
@@ -164,6 +175,9 @@ func plainAlphabet(thorough bool) []plainStep {
 		}
 		for _, md := range modes {
 			out = append(out, plainStep{Kind: k, Mode: md}, plainStep{Kind: k, Mode: md, Fresh: true})
+		}
+		if k == "gc" || k == "g" {
+			out = append(out, plainStep{Kind: k, Bare: true})
 		}
 	}
 	out = append(out, plainStep{Kind: "callf"}, plainStep{Kind: "callfail"})
@@ -245,7 +259,7 @@ func plainHistories(r *ev.Run) {
 				}
 			}
 			if got[j] != want {
-				r.Report("C07:plain:differs-from-fresh-vm:"+s.Kind, fmt.Sprintf("plain history %v (' = fresh compilation of the same source): invocation %d (%s) returned %s, on a fresh VM it returns %s", h, j, s, ev.Clip(got[j], 120), ev.Clip(want, 120)), plainReplay{h}, got[j], want)
+				r.Report("C07:plain:differs-from-fresh-vm:"+s.Kind, fmt.Sprintf("plain history %v (' = fresh compilation of the same source, ~ = RunCode without options): invocation %d (%s) returned %s, on a fresh VM it returns %s", h, j, s, ev.Clip(got[j], 120), ev.Clip(want, 120)), plainReplay{h}, got[j], want)
 				break
 			}
 		}
